@@ -513,11 +513,12 @@ static char *mk_none(const char *pjson)
 }
 
 #define NTOK 11
-static char *CTOK[5][NTOK];
+static char *CTOK[6][NTOK];
 static const char *ctok_name[NTOK] = { "valid", "valid2", "expires-at-T0+100", "bad-signature", "wrong-alg", "no-dot", "bad-b64-header",
 				       "header-without-alg", "unsigned-none", "empty-string", "NULL" };
-enum { CC_NOKEY, CC_HS, CC_ES_ISS, CC_CB_KID, CC_CB_KID_LENIENT, NCC };
-static const char *cc_name[NCC] = { "no-key", "HS256-key", "ES256-pubkey+iss", "callback-selects-key-by-kid", "callback-selects-key-by-kid-or-leaves-config-untouched" };
+enum { CC_NOKEY, CC_HS, CC_ES_ISS, CC_CB_KID, CC_CB_KID_LENIENT, CC_CB_EDIT, NCC };
+static const char *cc_name[NCC] = { "no-key", "HS256-key", "ES256-pubkey+iss", "callback-selects-key-by-kid", "callback-selects-key-by-kid-or-leaves-config-untouched",
+				    "HS256-key+iss+callback-that-edits-the-token" };
 
 static int kid_cb(jwt_t *jwt, jwt_config_t *cfg)
 {
@@ -548,6 +549,19 @@ static int kid_lenient_cb(jwt_t *jwt, jwt_config_t *cfg)
 	return 0;
 }
 
+/* edits everything it is handed (the library discards the edits after the call; nothing of them may outlive it) */
+static int edit_cb(jwt_t *jwt, jwt_config_t *cfg)
+{
+	jwt_value_t v;
+	(void)cfg;
+	jwt_header_del(jwt, "alg");
+	jwt_set_SET_STR(&v, "kid", "edited"); v.replace = 1; jwt_header_set(jwt, &v);
+	jwt_claim_del(jwt, "iss");
+	jwt_set_SET_INT(&v, "exp", 1000); v.replace = 1; jwt_claim_set(jwt, &v);
+	jwt_set_SET_INT(&v, "nbf", 4000000000L); v.replace = 1; jwt_claim_set(jwt, &v);
+	return 0;
+}
+
 static jwt_checker_t *cc_checker(int cc)
 {
 	jwt_checker_t *c = jwt_checker_new();
@@ -559,6 +573,11 @@ static jwt_checker_t *cc_checker(int cc)
 		break;
 	case CC_CB_KID: jwt_checker_setcb(c, kid_cb, ring); break;
 	case CC_CB_KID_LENIENT: jwt_checker_setcb(c, kid_lenient_cb, ring); break;
+	case CC_CB_EDIT:
+		jwt_checker_setkey(c, JWT_ALG_HS256, it_h1);
+		jwt_checker_claim_set(c, JWT_CLAIM_ISS, "good");
+		jwt_checker_setcb(c, edit_cb, NULL);
+		break;
 	}
 	return c;
 }
@@ -608,6 +627,8 @@ static void c13_setup(void)
 	CTOK[CC_CB_KID_LENIENT][2] = mk_es("{\"alg\":\"ES256\",\"kid\":\"e1\"}", PX, 0);
 	CTOK[CC_CB_KID_LENIENT][3] = mk_hs("{\"alg\":\"HS256\",\"kid\":\"zz\"}", P1, K32, JWT_ALG_HS256, 0);
 	CTOK[CC_CB_KID_LENIENT][4] = mk_es("{\"alg\":\"ES256\"}", P2, 0);
+	for (int i = 0; i < 5; i++)
+		CTOK[CC_CB_EDIT][i] = strdup(CTOK[CC_HS][i]);
 	for (int cc = 0; cc < NCC; cc++) {
 		CTOK[cc][5] = strdup("abcdef");
 		CTOK[cc][6] = strdup("!!!.e30.");
